@@ -292,6 +292,9 @@ def check(ctx):
     ctx.rule("R6", "string forms: '17' for Byte/Word and 'true'/'True'/'false' for Bool are converted before the merge")
     ctx.rule("R7", "every table item is mapped to a proven shape (exhaustive over all items)")
     ctx.rule("R8", "write-through: the structures' set_value / async_set_value hand (pos, length, newvalue) unchanged to the device-write callback on every path (no write is dropped or altered between the accessor and the connection)")
+    ctx.rule("R9", "identical device writes on both paths: the blocking and the awaitable set-value callback, interpreted on a model connection with pairwise distinct pack type / config version / log version, each emit exactly one datagram, byte-identical to each other and to the command builder called with every field by parameter name")
+    from ..writemodel import device_writes
+    device_writes(ctx, repo, "R9")
     from ..cfg import cfg_of
     from ..pathrules import pass_through
     n_wt = 0
